@@ -378,13 +378,64 @@ static void run_history(std::vector<op> const& ops, long fail_alloc, long fail_c
     quiesce(phase);
 }
 
+// weakest address alignment a conforming byte allocator may return for this image type (see C01)
+#if IMG == 2
+static const int ELEM_ALIGN = 2;
+#elif IMG == 4
+static const int ELEM_ALIGN = (int)alignof(telem);
+#else
+static const int ELEM_ALIGN = 1;
+#endif
+
+// Deterministic parameters for the exhaustive op-triple enumeration: the op kind is given, slots and
+// sizes come from small fixed tables chosen so that "same or smaller", "larger", other slot, equal and
+// unequal resources all occur.
+static op scripted_op(int kind, int pos, int variant) {
+    static const long W[] = {2, 3, 5, 1}, H[] = {2, 1, 4, 3};
+    op o; o.kind = kind; o.a = (pos + variant) & 1; o.b = 1 - o.a;
+    o.w = W[(pos + 2 * variant) & 3]; o.h = H[(pos + variant) & 3];
+    o.al = AL[(pos * 3 + variant) % 7]; o.res = 1 + ((pos + variant) & 1); o.val = 0x9E3779B97F4A7C15ull * (uint64_t)(pos + 7 * variant + 1);
+    return o;
+}
+
 int main(int argc, char** argv) {
     vh::init(argc, argv);
+    // (1) every ordered triple of operation kinds after a fixed prelude (two live images), followed by a postlude
+    //     that touches, re-creates and moves what is left -- complete over kinds^3 (x2 parameter variants in thorough)
+    {
+        const int variants = vh::thorough() ? 2 : 1;
+        for (int k1 = 0; k1 < O_KINDS; ++k1)
+            for (int k2 = 0; k2 < O_KINDS; ++k2) {
+                if (!vh::begin_case(vh::cat(IMGN, ".", FLAVN, ".triples"), vh::cat(op_name(k1), "+", op_name(k2)))) continue;
+                led::L().misalign = ((k1 + k2) & 1) ? ELEM_ALIGN : 0;
+                for (int k3 = 0; k3 < O_KINDS; ++k3)
+                    for (int v = 0; v < variants; ++v) {
+                        std::vector<op> ops;
+                        op pre0 = scripted_op(O_CTOR, 0, v); pre0.a = 0; pre0.w = 3; pre0.h = 2; pre0.res = 1; ops.push_back(pre0);
+                        op pre1 = scripted_op(O_CTOR_FILL, 1, v); pre1.a = 1; pre1.w = 5; pre1.h = 4; pre1.res = 2; ops.push_back(pre1);
+                        op pre2 = scripted_op(O_OTHER_MAKE, 2, v); ops.push_back(pre2);
+                        ops.push_back(scripted_op(k1, 3, v)); ops.push_back(scripted_op(k2, 4, v)); ops.push_back(scripted_op(k3, 5, v));
+                        for (int slot = 0; slot < 2; ++slot) {       // postlude: use whatever is there
+                            op w = scripted_op(O_WRITE, 6 + slot, v); w.a = slot; ops.push_back(w);
+                            op r = scripted_op(O_RECREATE, 8 + slot, v); r.a = slot; r.w = 2; r.h = 2; ops.push_back(r);
+                            op w2 = scripted_op(O_WRITE, 10 + slot, v); w2.a = slot; ops.push_back(w2);
+                        }
+                        g_hist.clear(); for (auto& o : ops) g_hist += op_str(o) + " ";
+                        long P = 0, Q = 0, p2, q2;
+                        run_history(ops, -1, -1, P, Q);
+                        if (k3 == (k1 + k2) % O_KINDS) for (long k = 0; k < P; ++k) run_history(ops, k, -1, p2, q2);   // fault points on a diagonal slice
+                        vh::count("triple_histories");
+                    }
+                vh::evals(n_checks); n_checks = 0; vh::count("operations", n_ops); n_ops = 0;
+                vh::distinct((uint64_t)O_KINDS * variants);
+            }
+    }
     const long NH = vh::opt_long("histories", vh::thorough() ? 2000 : 150);
     const int maxlen = vh::thorough() ? 40 : 12;
     for (long hno = 0; hno < NH; ++hno) {
         if (!vh::begin_case(vh::cat(IMGN, ".", FLAVN), vh::cat("history", hno))) continue;
         vh::rng r = vh::case_rng();
+        led::L().misalign = (hno & 1) ? ELEM_ALIGN : 0;     // every other history: blocks at the weakest legal alignment
         int len = 3 + (int)r.below((uint64_t)maxlen - 2);
         std::vector<op> ops; g_hist.clear();
         uint64_t hh = 7;
